@@ -328,6 +328,7 @@ def correspond(ctx):
             except Exception as e:  # noqa
                 ctx.fail(f"unreadable:{name}:{lex}", f"{st.__name__}.from_xml({lex!r}) raised {type(e).__name__} although the form is valid for {xt[1]} ({uses[0]})",
                          {"type": name, "lexical": lex})
+    rejected_is_noop(ctx)
     out = ctx.driver.run(lines)
     for (name, v), i, m in zip(meta, impl, out):
         ctx.traces += 1
@@ -349,6 +350,54 @@ def correspond(ctx):
     if meta:
         ctx.sample({"type": meta[0][0], "value": repr(meta[0][1]), "written": impl[0], "model": out[0]})
     ctx.extra["pairs"] = len(prs)
+
+
+def rejected_is_noop(ctx):
+    """'every other value is rejected ... before anything is written': on a real element whose attribute already holds a
+    valid value, an assignment that raises must leave the attribute exactly as it was (both declaration kinds)"""
+    from pptx.oxml.xmlchemy import OxmlElement
+
+    reg = reflect.registered_classes()
+    bad_values = [object(), "not-a-value", 10**30, -10**30, 1.5, None, [], 2**31, -1]
+    seen = set()
+    for tag, cls in sorted(reg.items()):
+        nsp = None
+        for prop, attr, st, kind, default in reflect.attr_decls(cls):
+            if (cls, prop) in seen:
+                continue
+            seen.add((cls, prop))
+            good = None
+            for cand in (1, 2, 100, 1000, 914400, 0.5, 50.0, True, "FF0000", "rId1", "x"):
+                try:
+                    good = st.to_xml(cand)
+                    if good is not None and (default is None or cand != default):
+                        break
+                except Exception:  # noqa
+                    good = None
+            if good is None and is_enum(st):
+                mem = [m for m in st if m.xml_value and m != default]
+                good = mem[0].xml_value if mem else None
+            if not isinstance(good, str):
+                continue
+            if nsp is None:
+                from harness.props.c10 import clark_to_nsp
+                nsp = clark_to_nsp(tag)
+            for bv in bad_values:
+                el = OxmlElement(nsp)
+                el.set(attr, good)
+                try:
+                    setattr(el, prop, bv)
+                    continue  # accepted (or None = removal for optional attributes): not a rejection
+                except (TypeError, ValueError):
+                    pass
+                except Exception:  # noqa
+                    continue
+                ctx.case(key=("reject-noop", cls.__name__, prop, repr(bv)[:20]))
+                ctx.count("rejected-assignments-checked")
+                if el.get(attr) != good:
+                    ctx.fail(f"rejected-assignment-wrote:{kind}", f"{cls.__name__}.{prop} = {bv!r} raised, but the attribute {attr} changed from {good!r} to {el.get(attr)!r}",
+                             {"class": cls.__name__, "prop": prop, "value": repr(bv)})
+                    break
 
 
 def search(ctx, hints):
